@@ -253,6 +253,7 @@ def rule_weights(ctx):
             ctx.holds('R5', 'lhs = int(idx), rhs = ceil(idx), frac = idx - lhs')
     fw = ctx.fn(TR + '_interp_internal_from_weight')
     ARR = P_('arr')
+    promoted = []
     for nd in (True, False):
         ev = run(ctx, fw, oracle=lambda a, st, nd=nd: (nd if (a[0] == 'cmp' and a[1] == '<' and a[2] == const(1) and a[3][0] == 'attr' and a[3][2] == 'ndim') else None))
         for p in ret_paths(ev):
@@ -275,6 +276,15 @@ def rule_weights(ctx):
                 ctx.violated('R3', fw, 'fill stores', 'newval[left_idx] = left and newval[right_idx] = right', node=p.node)
                 continue
             fr = None
+            # the fibre values entering the difference: arr itself, or arr promoted to float (integer data)
+            if core[0] == 'binop' and core[1] == '+' and core[2][0] == 'sub' and core[2][2] == P_('lhs_idx'):
+                X = core[2][1]
+                base = T.call_receiver(X) if (nd and X[0] == 'call' and T.call_name(X) == 'swapaxes') else X
+                floats = (('call', ('attr', ARR, 'astype'), (('name', 'float'),), ()), ('call', ('attr', ('name', 'np'), 'asarray'), (ARR,), (('dtype', ('name', 'float')),)))
+                if base == ARR or base in floats:
+                    vl, vr = ('sub', X, P_('lhs_idx')), ('sub', X, P_('rhs_idx'))
+                    intg = [pol for a_, pol in p.guards if (a_[0] == 'cmp' and a_[1] in ('in', '==') and 'dtype' in T.show(a_[2]) and 'kind' in T.show(a_[2]))]
+                    promoted.append((base in floats, intg))
             if core[0] == 'binop' and core[1] == '+' and core[2] == vl and core[3][0] == 'binop' and core[3][1] == '*':
                 f, dlt = core[3][2], core[3][3]
                 if dlt != ('binop', '-', vr, vl):
@@ -285,6 +295,14 @@ def rule_weights(ctx):
                 ctx.violated('R5', fw, 'newval = ' + T.show(core)[:140], 'linear interpolation: vleft + frac * (vright - vleft) with vleft = arr[lhs_idx], vright = arr[rhs_idx]', node=p.node)
                 continue
             ctx.holds('R5', 'from_weight %s: vleft + frac*(vright - vleft), fills, %s' % ('N-d' if nd else '1-D', 'swapaxes undone' if nd else ''))
+
+    # "float/int arrays": vright - vleft is computed in the dtype of the data; for unsigned (and narrow signed) integers a decreasing step wraps around, so
+    # the N-d / Dataset variants disagree with numpy.interp (which works in float).  The integer case has to be promoted before the difference.
+    if promoted and not any(is_f and True in intg for is_f, intg in promoted):
+        ctx.violated('R5', fw, 'integer fibres not promoted', 'the linear combination vleft + frac * (vright - vleft) is evaluated in the dtype of the array: for unsigned integer data every '
+                     'decreasing step wraps around (uint8 [200, 100] at the midpoint gives 278 - 256... instead of 150), unlike the 1-D path through numpy.interp', node=fw.node)
+    elif promoted:
+        ctx.holds('R5', 'from_weight: integer data promoted to float before the difference')
 
 
 def check(ctx):
